@@ -82,13 +82,35 @@ class CapturedPath:
         "Unsupported item: {}".format(item))
     return path, prev_edge
 
+  def _oriented_segments_of_edge(self, oriented_edge):
+    """
+    The oriented segments from and to which an oriented edge leads.
+
+    A dovetail overlap leads from the segment, whose end is aligned, to the
+    segment, whose begin is aligned (in whichever order the E line lists them).
+    If it is reversed (orientation -), it leads from the inverted second to the
+    inverted first. For other alignments no direction can be computed: the
+    order in the E line is returned and the edge can be followed both ways.
+
+    Returns
+    -------
+    (list of gfapy.OrientedLine, bool)
+      from and to segment; is the direction binding?
+    """
+    edge = oriented_edge.line
+    directed = (edge._alignment_type == "L")
+    if directed:
+      oss = [edge.oriented_from, edge.oriented_to]
+    else:
+      oss = [edge.sid1, edge.sid2]
+    if oriented_edge.orient == "-":
+      oss = [oss[1].inverted(), oss[0].inverted()]
+    return oss, directed
+
   def _push_first_edge_on_se_path(self, path, items):
     oriented_edge = items[0]
-    oss = [oriented_edge.line.sid1, oriented_edge.line.sid2]
-    if oriented_edge.orient == "-":
-      for i in range(len(oss)):
-        oss[i] = oss[i].inverted()
-    if len(items) > 1:
+    oss, directed = self._oriented_segments_of_edge(oriented_edge)
+    if len(items) > 1 and not directed:
       nextitem = items[1]
       if isinstance(nextitem.line, gfapy.line.segment.GFA2):
         if nextitem == oss[0]:
@@ -96,10 +118,7 @@ class CapturedPath:
         # if oss does not include nextitem an error will be raised
         # in the next iteration, so does not need to be handled here
       elif isinstance(nextitem.line, gfapy.line.edge.GFA2):
-        oss_of_next = [nextitem.line.sid1, nextitem.line.sid2]
-        if oriented_edge.orient == "-":
-          for i in range(len(oss_of_next)):
-            oss_of_next[i] = oss_of_next[i].inverted()
+        oss_of_next = self._oriented_segments_of_edge(nextitem)[0]
         if oss[0] in oss_of_next:
           oss.reverse()
         # if oss_of_next have no element in common with oss an error will be
@@ -126,13 +145,10 @@ class CapturedPath:
   def _push_nonfirst_edge_on_se_path(self, path, oriented_edge):
     prev_os = path[-1]
     path.append(oriented_edge)
-    possible_prev = [oriented_edge.line.sid1, oriented_edge.line.sid2]
-    if oriented_edge.orient == "-":
-      for i, v in enumerate(possible_prev):
-        possible_prev[i] = possible_prev[i].inverted()
+    possible_prev, directed = self._oriented_segments_of_edge(oriented_edge)
     if prev_os == possible_prev[0]:
       path.append(possible_prev[1])
-    elif prev_os == possible_prev[1]:
+    elif prev_os == possible_prev[1] and not directed:
       path.append(possible_prev[0])
     else:
       raise gfapy.NotFoundError(
@@ -189,14 +205,13 @@ class CapturedPath:
       if id(edge) in seen:
         continue # an edge from a segment to itself is listed twice
       seen.add(id(edge))
-      if (edge.sid1 == oriented_segment and edge.sid2 == path[-1]) or \
-         (edge.sid1 == path[-1] and edge.sid2 == oriented_segment):
-        edges.append(gfapy.OrientedLine(edge, "+"))
-      elif (edge.sid1 == oriented_segment.inverted() and
-            edge.sid2 == path[-1].inverted()) or\
-           (edge.sid1 == path[-1].inverted() and
-            edge.sid2 == oriented_segment.inverted()):
-        edges.append(gfapy.OrientedLine(edge, "-"))
+      for orient in ["+", "-"]:
+        oriented_edge = gfapy.OrientedLine(edge, orient)
+        oss, directed = self._oriented_segments_of_edge(oriented_edge)
+        if oss == [path[-1], oriented_segment] or \
+           (oss == [oriented_segment, path[-1]] and not directed):
+          edges.append(oriented_edge)
+          break
     if len(edges) == 0:
       raise gfapy.NotFoundError(
         "Path is not valid, segments are not contiguous\n"+
